@@ -23,6 +23,7 @@ LEVEL_TEXT += (" (C10.null) every scan arm passes the nullable-regex test on eve
 
 LEVEL_TEXT += (" (C06.E) every element-checking loop of the checker reaches a check on every cycle; (C06.Q) the quantifier recorded per expression form follows the table (One for literals, calls, constants, regex captures, scoped reads; ZeroOrMore for list / set forms; the capture's own quantifier).")
 LEVEL_TEXT += (' (C06.U) every successful return of Stanza::check passes the `unused.is_empty()` edge.')
+LEVEL_TEXT += (' Stanza::check takes nothing but `self` by mutable reference (no accumulator shared between stanzas).')
 CONJ = r"^phi\(\(rec BitAnd \(Try::branch\(checker::check\(&\*\(Iterator::next\(&IntoIterator::into_iter\(&\*arg:self\.%s\)\) as Some\)\.0, &\*arg:ctx\)\) as Continue\)\.0\.is_local\) \| true\)$"
 ELEMENT = r"^\(Try::branch\(checker::check\(&\*cast\(\*arg:self\.element\), &checker::CheckContext::CheckContext\{.*VariableMap::nested\(cast\(&\*\*arg:ctx\.locals\)\)\)\}\)\) as Continue\)\.0\.is_local$"
 
@@ -119,6 +120,28 @@ def tested_before_success(prog, f, field_pat, prop_name):
                     continue
                 work.append(y)
         out.append((vb, reached_ok is None and bool(good), "%d deciding edge(s)" % len(good) if reached_ok is None else "a successful return is reachable without the test", src))
+    return out
+
+
+def _phi_alts_l(c):
+    """top-level alternatives of `phi(a | b | ..)`"""
+    out, depth, cur = [], 0, ""
+    body = c[4:-1]
+    i = 0
+    while i < len(body):
+        ch = body[i]
+        if ch in "([{":
+            depth += 1
+        elif ch in ")]}":
+            depth -= 1
+        if depth == 0 and body[i:i + 3] == " | ":
+            out.append(cur)
+            cur = ""
+            i += 3
+            continue
+        cur += ch
+        i += 1
+    out.append(cur)
     return out
 
 
@@ -233,6 +256,17 @@ def run(prog, rep):
                 fld = dict(zip(stored[4], stored[5]))
                 if "is_local" in fld and canon(fld["is_local"]) == "false":
                     rep.ok("C06.L", "%s :: stored flag" % f.id, f.loc(), "the stored value is built with is_local: false")
+                    continue
+        if not writes and len(adds) == 1 and want == "mutable":
+            # `VariableResult { is_local: value.is_local && !mutable, .. }`: every alternative of the stored flag is false when
+            # `mutable` is true (it is the constant false, or the negation of the parameter)
+            stored = strip(tr.operand(adds[0][1]["args"][2]))
+            if stored[0] == "agg" and (stored[2] or "").endswith("::VariableResult"):
+                fld = dict(zip(stored[4], stored[5]))
+                c = canon(fld["is_local"]) if "is_local" in fld else ""
+                alts = _phi_alts_l(c) if c.startswith("phi(") else [c]
+                if alts and all(a in ("false", "(Not arg:mutable)", "(Not *arg:mutable)") for a in alts) and "false" != "".join(alts):
+                    rep.ok("C06.L", "%s :: stored flag" % f.id, f.loc(), "the stored flag is `value.is_local && !mutable`: false whenever the variable is mutable")
                     continue
         if ok:
             wb = writes[0][0]
@@ -467,6 +501,16 @@ def run(prog, rep):
     else:
         rep.check(not im, "C06.C", "CheckContext :: no interior mutability", "", "no Cell/RefCell/Mutex/Atomic reachable through its fields",
                   "the checker's context carries mutable shared state (%s): what one stanza resolves can change how a later stanza is checked" % (im[:2],))
+    # ... and no accumulator is threaded from one stanza's check to the next: besides the stanza itself, Stanza::check borrows
+    # everything immutably
+    sc = [f for f in chk if f.self_path == "tsg::ast::Stanza" and f.name == "check" and f.kind != "closure"]
+    if len(sc) != 1:
+        rep.violation("C06.C", "anchor-lost:Stanza::check", "", "not found")
+    else:
+        f = sc[0]
+        muts = [f.ty(f.body.locals[l]["ty"]).s for l in range(2, f.body.arg_count + 1) if f.ty(f.body.locals[l]["ty"]).k == "ref" and f.ty(f.body.locals[l]["ty"]).mut]
+        rep.check(not muts, "C06.C", "Stanza::check :: no shared accumulator", f.loc(), "only `&mut self` is mutable among the parameters",
+                  "Stanza::check takes %s by mutable reference: state left by the check of one stanza (used captures, scopes) is seen by the next" % muts)
     # ---- V: the checker's scopes are VariableMaps: redefinition / assignment errors originate there and must reach the caller
     from ..engines import e5_writers as e5
     from ..engines import e2_errflow as e2
